@@ -11,6 +11,7 @@ ROOT = os.path.dirname(os.path.abspath(__file__))
 tag, prefix = sys.argv[1], sys.argv[2]
 props = sys.argv[3:] or ["C%02d" % k for k in range(1, 21)]
 ORIGIN = {
+    "r8": "fresh sub-agent, round 8 (refactorings): given only the property with its anchors and a scratch worktree, with the request for two plausible refactorings of 15-60 lines on the property's path (extracted helper, merged duplicates, loop <-> iterator, changed data structure, moved cache / early return, recursion -> iteration, tightened types) that read as behaviour-preserving but are not for some rare legitimate input or call sequence",
     "r7": "fresh sub-agent, round 7 (regressions): given only the property with its anchors and a scratch worktree that carries the library's git history, with the request for three changes that each bring back, wholly or preferably partially, the defect repaired by a different `fix:` commit (one hunk reverted, the fix lost for a sub-case by a refactor, a condition narrowed, a twin entry point taking the old path)",
     "r6": "fresh sub-agent, round 6: given only the property (title, statement, quantifier, why the tests cannot settle it, anchor list) and a scratch worktree — no description of any checker — with the request for three changes that differ in where they sit: one in a helper / trait / utility that the anchored code calls but that lies outside the anchored functions, one in an impl, constructor, setter or conversion of the types involved, one in the anchored algorithm that needs two independent conditions at once",
     "r5": "fresh sub-agent, round 5: given only the property (title, statement, quantifier, why the tests cannot settle it, anchor list) and a scratch worktree — no description of any checker — with the request for three changes in three different mechanisms: one triggered by a multi-step API sequence, one by an unusual but legitimate input, one made of two cooperating sites",
